@@ -3,7 +3,7 @@ package main
 // Synchronisation skeleton of the relay (DESIGN 3.1 (b)) -> Gen/Skel_relay.v, and the
 // numeric values of the relay status word -> Gen/Consts.v (section "relay").
 //
-// Kept, in evaluation order with the branch structure: atomic Load/Store/CompareAndSwap
+// Kept, in evaluation order with the branch structure: atomic Load/Store/CompareAndSwap/Swap
 // (with the field name), Lock/Unlock (with the mutex field), channel sends/receives/close
 // (with the channel field), calls of addBuffer/popBuffer/readLine/readLineOnWindows, calls
 // of same-file functions that themselves have a skeleton, go statements, defer, if/else,
@@ -35,6 +35,37 @@ func c13GenRelayConsts(s *src, o *out) {
 		}
 		o.defN(p[1], s.evalInt(e, nil, 0))
 	}
+	// the reset guard: the first operation on relayStatus in resetToStandby is a
+	// CompareAndSwap whose expected value is the function's own parameter (any other
+	// operation there -- Swap, Store -- resets the relay from whatever state it is in)
+	guarded := false
+	if fd, ok := s.funcs["TrzszRelay.resetToStandby"]; ok && fd.Body != nil {
+		param := ""
+		if fd.Type.Params != nil && len(fd.Type.Params.List) == 1 && len(fd.Type.Params.List[0].Names) == 1 {
+			param = fd.Type.Params.List[0].Names[0].Name
+		}
+		seen := false
+		ast.Inspect(fd.Body, func(n ast.Node) bool {
+			call, ok := n.(*ast.CallExpr)
+			if !ok || seen {
+				return !seen
+			}
+			sel, ok := call.Fun.(*ast.SelectorExpr)
+			if !ok || c13Field(sel.X) != "relayStatus" {
+				return true
+			}
+			seen = true
+			if sel.Sel.Name == "CompareAndSwap" && len(call.Args) == 2 && param != "" {
+				if id, ok := call.Args[0].(*ast.Ident); ok && id.Name == param {
+					guarded = true
+				}
+			}
+			return false
+		})
+	} else {
+		die("relay.go: function resetToStandby not found")
+	}
+	o.raw("Definition relay_reset_guarded : bool := %v.\n", guarded)
 }
 
 // roots of the relay model; the closure over same-file callees is emitted too
@@ -125,6 +156,11 @@ func (g *c13sk) expr(e ast.Node) []string {
 					return
 				case "CompareAndSwap":
 					out = append(out, "SkAtomic "+c13Q(c13Field(sel.X))+" ACas")
+					return
+				case "Swap":
+					// an unconditional exchange (no expected value): kept as its own kind so that the
+					// model can tell a guarded reset (ACas) from a reset from any state (ASwap)
+					out = append(out, "SkAtomic "+c13Q(c13Field(sel.X))+" ASwap")
 					return
 				case "Lock":
 					out = append(out, "SkLock "+c13Q(c13Field(sel.X)))
